@@ -93,7 +93,7 @@ func run(c *vk.Ctx) {
 		defer trunc2.Close()
 	}
 	nCases := c.Pick(200, 900)
-	sem.RunCases(c, base, "mem", nCases, gen.Options{WideEvery: 3, AlgebraEvery: 4}, 4, 8, func(i int, r *rand.Rand, p *sem.Prepared, contextual []*openfgav1.TupleKey) {
+	sem.RunCases(c, base, "mem", nCases, gen.Options{WideEvery: 3, AlgebraEvery: 4, HierarchyEvery: 6}, 4, 8, func(i int, r *rand.Rand, p *sem.Prepared, contextual []*openfgav1.TupleKey) {
 		oneCase(c, i, r, p, contextual, servers, []*drive.Srv{trunc, trunc2})
 	})
 }
